@@ -34,3 +34,10 @@ Definition run_calendar (n : Z) : J :=
   let '(y, m, d) := ymd_of_ord n in JL [JZ y; JZ m; JZ d; JZ (weekday_ord n); JZ (ord_of_ymd y m d)].
 Definition run_ymd (t : Z) : J := JZ (ymd_model t).
 Definition run_dt2str (t : Z) : J := JO JZ (dt_model (dt2str_model t)).
+
+(* ---- C10 ---- *)
+From PB Require Import model.M_drange.
+Definition FUEL : nat := Z.to_nat 20000.
+Definition run_drange (c : Z * Z * bump) : J :=
+  let '(t0, t1, b) := c in
+  match drange FUEL t0 t1 b with Ok l => JLZ l | Raise => JErr "ValueError" | OutOfFuel => JErr "OutOfFuel" end.
